@@ -37,3 +37,4 @@ pub fn watch_snapshot() -> Vec<Vec<u8>> {
     Vec::new()
 }
 pub fn forget_owned() {}
+pub fn fail_mprotect_range(_r: Option<(u64, u64)>) {}
